@@ -11,6 +11,7 @@ RULE = (
     "structured families of the catalogue (Hamming, Golay, repetition, SPC, Reed-Muller, cyclic: every divisor of X^n+1, named codes, BCH: every accepted design distance, "
     "RS-style) x information sets; the code is the row space of the encoder's *observed* outputs on a basis; true d by enumeration (k<=20) or MacWilliams on the "
     "reference-computed dual (n-k<=20). Distinct = code object; non-trivial = object constructed and at least one advertised quantity compared with a computed one."
+    " Added after the seeded-fault rounds: textbook BCH codes over GF(32)/GF(64) in the quick tier, index-list information sets, units grouped by family and (n,k)."
 )
 ASSUMPTIONS = [
     "exact-vs-lower-bound reading of an advertised distance follows the class docstring (Hamming 3/4, Golay 7/8, repetition n, SPC 2, RM 2^(m-r) exact; cyclic exact for k<=12; BCH/RS >= delta)",
